@@ -30,6 +30,8 @@ enum Pos {
     A0(usize),
     /// set_params after a clean build, component k replaced
     Set(usize),
+    /// the singular value threshold handed to the problem builder
+    Eps,
     /// element (i, j) of the basis matrix itself
     Phi(usize, usize),
     /// element (i, j) of the derivative matrix with respect to parameter k
@@ -83,6 +85,7 @@ fn pos_json(p: &Pos) -> Value {
         Pos::W(i) => json!(["w", i]),
         Pos::A0(k) => json!(["a0", k]),
         Pos::Set(k) => json!(["set", k]),
+        Pos::Eps => json!(["eps", 0]),
         Pos::Phi(i, j) => json!(["phi", i, j]),
         Pos::Dphi(k, i, j) => json!(["dphi", k, i, j]),
     }
@@ -96,6 +99,7 @@ fn pos_parse(v: &Value) -> Pos {
         "w" => Pos::W(i),
         "a0" => Pos::A0(i),
         "set" => Pos::Set(i),
+        "eps" => Pos::Eps,
         "phi" => Pos::Phi(i, a[2].as_u64().unwrap() as usize),
         "dphi" => Pos::Dphi(i, a[2].as_u64().unwrap() as usize, a[3].as_u64().unwrap() as usize),
         o => panic!("pos {}", o),
@@ -126,6 +130,7 @@ fn case_parse(v: &Value) -> (Base, Vec<(Pos, f64)>) {
 
 fn positions(b: &Base) -> Vec<Pos> {
     let mut v = vec![];
+    v.push(Pos::Eps);
     for k in 0..b.fam.p() {
         v.push(Pos::A0(k));
         v.push(Pos::Set(k));
@@ -176,6 +181,7 @@ fn run_case<T: Sc>(ctx: &Ctx, b: &Base, subs: &[(Pos, f64)]) {
     let mut w: Option<Vec<f64>> = if b.weighted { WKind::Ramp.make(b.n) } else { None };
     let mut set_alpha: Option<Vec<f64>> = None;
     let mut tamper: Vec<(Option<usize>, usize, usize, f64)> = vec![];
+    let mut eps: Option<f64> = None;
     for (p, v) in subs {
         match *p {
             Pos::X(i) => x[i] = *v,
@@ -187,6 +193,7 @@ fn run_case<T: Sc>(ctx: &Ctx, b: &Base, subs: &[(Pos, f64)]) {
                 a[k] = *v;
                 set_alpha = Some(a);
             }
+            Pos::Eps => eps = Some(*v),
             Pos::Phi(i, j) => tamper.push((None, i, j, *v)),
             Pos::Dphi(k, i, j) => tamper.push((Some(k), i, j, *v)),
         }
@@ -202,7 +209,7 @@ fn run_case<T: Sc>(ctx: &Ctx, b: &Base, subs: &[(Pos, f64)]) {
             model = vpmc::wrap::Tamper::wrap(model, *d, *i, *j, T::f(*v));
         }
         let phi0_nonfinite = model.eval().map(|m| m.iter().any(|v| !v.d().is_finite())).unwrap_or(false);
-        let built = prob::build(model, &yt, wt.as_ref(), None, api, b.par);
+        let built = prob::build(model, &yt, wt.as_ref(), eps.map(|e| T::f(e)), api, b.par);
         let mut problem = match built {
             Ok(p) => p,
             Err(_) => return ("build-rejected", false, false),
@@ -312,7 +319,7 @@ fn odd_builder_models(ctx: &Ctx) {
 
 fn bases(thorough: bool) -> Vec<Base> {
     let mut v = vec![];
-    let fams = vec![Family::GenProd { m: 1, p: 1, inc: default_inc(1, 1) }, Family::Exp1Off, Family::Exp2Off, Family::OLeary];
+    let fams = vec![Family::GenProd { m: 1, p: 1, inc: default_inc(1, 1) }, Family::Exp1Off, Family::Exp2Off, Family::OLeary, Family::ExpN(4)];
     for (fi, fam) in fams.iter().enumerate() {
         let ns: Vec<usize> = if thorough { vec![1, 2, 3, 4, 8] } else { vec![1, 2, 3, 4] };
         for &n in &ns {
@@ -320,6 +327,9 @@ fn bases(thorough: bool) -> Vec<Base> {
                 for f32_ in [false, true] {
                     for (prov, par, weighted) in [(Prov::Hand, false, true), (Prov::Built, false, false), (Prov::Hand, true, false), (Prov::Built, true, true)] {
                         if !fam.can_build() && prov == Prov::Built {
+                            continue;
+                        }
+                        if fi == 4 && (n < 4 || s == 2 || prov == Prov::Built) {
                             continue;
                         }
                         if !thorough && (fi == 3 || (s == 2 && f32_) || (par && n != 3)) {
